@@ -146,6 +146,7 @@ type FnVC struct {
 	rangeIters map[ssa.Value]*rangeIter
 	witKeys map[string]bool
 	freeVars []*ssa.FreeVar
+	freshObjs []freshObj
 	axioms []string
 	tablesUsed map[string]bool
 	tableInfo map[string]*tableInfo
@@ -664,7 +665,8 @@ func (vc *FnVC) store(a *Addr, v string) {
 	case aField, aBox:
 		vc.frameCheck(a.key, a.ref)
 		if a.kind == aField && a.fieldInv != "" && len(a.path) == 0 {
-			vc.assert("field-invariant", a.key+" stays non-nil", nonNilTerm(v, vc.sorts.sortOf(a.T)))
+			// objects allocated by this function may be initialised in several steps; they are checked at return
+			vc.assert("field-invariant", a.key+" stays non-nil", sOr(sx(">", a.ref, vc.entryAlloc), nonNilTerm(v, vc.sorts.sortOf(a.T))))
 		}
 		root := sSelect(vc.cur(a.key), a.ref)
 		nv := vc.updatePath(root, a.path, v)
@@ -858,4 +860,27 @@ func (vc *FnVC) assumeTypeInv(v Val, force bool) {
 	vc.flushSide(env)
 	vc.assume(sImp(sNot(sEq(v.S, "0")), t))
 	vc.trustedUsed["object invariant of "+n.Obj().Name()+" assumed in functions that never write its fields (encapsulation argument, DESIGN §2.3)"] = true
+}
+
+type freshObj struct {
+	ref   string
+	stT   types.Type
+	block *ssa.BasicBlock
+}
+
+// checkFreshObjs: objects allocated by this function satisfy their field invariants when it returns.
+func (vc *FnVC) checkFreshObjs(ret *ssa.BasicBlock) {
+	for _, fo := range vc.freshObjs {
+		if !(fo.block == ret || fo.block.Dominates(ret)) {
+			continue
+		}
+		st := fo.stT.Underlying().(*types.Struct)
+		for i := 0; i < st.NumFields(); i++ {
+			if vc.fieldInvOf(fo.stT, i) == "" {
+				continue
+			}
+			key, fs, _ := vc.fieldKey(fo.stT, i)
+			vc.assert("field-invariant", key+" initialised before return", nonNilTerm(sSelect(vc.cur(key), fo.ref), fs))
+		}
+	}
 }
